@@ -24,16 +24,28 @@ def vetoed (env : Env) (σ : StoreId) (k : Kind) (id : String) : Bool :=
     | .constraint _ vs => vs.contains (k, id)
     | .listener _ _ => false
 
+/-- the entity has data in the first child store C -/
 def hasChild (db : Db) (id : String) : Bool := ((db.get id).bind (·.child)).isSome
+
+/-- the entity has data in the second child store D -/
+def hasChild2 (db : Db) (id : String) : Bool := ((db.get id).bind (·.child2)).isSome
+
+/-- calls made on the (instrumented) strategy of the child store C: none when another store does the work -/
+def ifC (σ : StoreId) (n : Nat) : Nat := match σ with | .C => n | _ => 0
 
 /-- some custom index-stage constraint registered on store σ objects to (stage, id) -/
 def ixVetoed (env : Env) (σ : StoreId) (stage : Stage) (id : String) : Bool :=
   (env.ix σ).any fun vs => vs.contains (stage, id)
 
-/-- an operation performed by store σe (the parent store, or the child store for an entity with child
-    data) consults the constraints of the parent store and, for σe = C, those of the child store -/
+/-- a write performed by store σe (the parent store, or a child store for an entity with data there)
+    consults the constraints of the parent store and, for a child store, its own -/
 def ixVetoedFor (env : Env) (σe : StoreId) (stage : Stage) (id : String) : Bool :=
-  ixVetoed env .P stage id || (match σe with | .P => false | .C => ixVetoed env .C stage id)
+  ixVetoed env .P stage id || (match σe with | .P => false | σ => ixVetoed env σ stage id)
+
+/-- a delete consults the parent store's constraints and those of every child store the entity has data in -/
+def ixVetoedDel (env : Env) (db : Db) (id : String) : Bool :=
+  ixVetoed env .P .beforeDelete id || (hasChild db id && ixVetoed env .C .beforeDelete id)
+    || (hasChild2 db id && ixVetoed env .D .beforeDelete id)
 
 /-- does an injected storage fault strike an operation that performs `lp` / `lc` FillEntity and
     `pp` / `pc` PersistEntity calls on the parent / child strategy? -/
@@ -44,9 +56,20 @@ def faultHits (fault : Fault) (lp lc pp pc : Nat) : Bool :=
   | .load .C n => decide (1 ≤ n ∧ n ≤ lc)
   | .persist .P n => decide (1 ≤ n ∧ n ≤ pp)
   | .persist .C n => decide (1 ≤ n ∧ n ≤ pc)
+  -- the strategy of the second child store is not an injection point
+  | .load .D _ => false
+  | .persist .D _ => false
 
-/-- a role is stored as a list key (type byte + value): bbolt refuses keys above its key size -/
-def keyRejected (f : PFields) : Bool := f.roles.any (fun r => r.utf8ByteSize + 1 > maxKeySize)
+/-- the `tags` value cannot be persisted: somewhere in it (directly in the map, in a list, in a nested
+    map or list at any depth) sits a value of a type the bucket encoding has no representation for, or
+    a map key that cannot be a bolt key (empty, above the key size) -/
+def tagsRejected (tags : List TagEntry) : Bool :=
+  tags.any fun e => e.leaf.isUnsupported || e.path.any badKey
+
+/-- the entity's value cannot be persisted: a role is stored as a list key (type byte + value) and bbolt
+    refuses keys above its key size; or the tags value is unpersistable -/
+def keyRejected (f : PFields) : Bool :=
+  f.roles.any (fun r => r.utf8ByteSize + 1 > maxKeySize) || tagsRejected f.tags
 
 /-- name: non-nullable unique index — a create (from scratch, or of child data over an existing plain
     parent entity) always writes its entry, an update only when the name changes: the name must then be
@@ -101,8 +124,26 @@ def writeFlows (σe : StoreId) (k : Kind) (db db' : Db) (id : String) : List Flo
   let fin (σ : StoreId) : Option EntView := match k with | .deleted => none | _ => view σ db' id
   match σe with
   | .P => [{ store := .P, kind := k, id := id, initial := init .P, final := fin .P, parentEvent := false }]
-  | .C => [{ store := .P, kind := k, id := id, initial := init .P, final := fin .P, parentEvent := true },
-           { store := .C, kind := k, id := id, initial := init .C, final := fin .C, parentEvent := false }]
+  | σ => [{ store := .P, kind := k, id := id, initial := init .P, final := fin .P, parentEvent := true },
+          { store := σ, kind := k, id := id, initial := init σ, final := fin σ, parentEvent := false }]
+
+/-- what a delete announces: the parent store's flow (marked as parent event iff some child store holds
+    the entity), then one flow per child store that holds it, in registration order -/
+def deleteFlows (db : Db) (id : String) : List Flow :=
+  match view .P db id with
+  | none => []
+  | some pv =>
+    let one (σ : StoreId) : List Flow :=
+      match view σ db id with
+      | none => []
+      | some v => [{ store := σ, kind := .deleted, id := id, initial := some v, final := none, parentEvent := false }]
+    let cs := one .C ++ one .D
+    { store := .P, kind := .deleted, id := id, initial := some pv, final := none, parentEvent := !cs.isEmpty } :: cs
+
+/-- FillEntity calls of a delete on the parent / on C's strategy: FindById, one init per child store that
+    holds the entity (each loads the parent part), the parent's init -/
+def delCounts (db : Db) (id : String) : Nat × Nat :=
+  (2 + (if hasChild db id then 1 else 0) + (if hasChild2 db id then 1 else 0), if hasChild db id then 1 else 0)
 
 /-- a create of child data over an existing parent entity first asks the parent store's index-stage
     constraints "before update" -/
@@ -114,16 +155,16 @@ def specCreate (env : Env) (fault : Fault) (σ : StoreId) (id : String) (f : PFi
   else
     -- the parent fields (roles as a set) and, through the child store, the rank
     let db' := db.put id (writtenEnt σ db id f rank)
-    let counts : Nat × Nat := match σ with | .P => (1, 0) | .C => (1, 1)
-    if writeRejected true db db' id (createOld σ db id) f || faultHits fault counts.1 counts.2 counts.1 counts.2 then rejectDirty db'
+    if writeRejected true db db' id (createOld σ db id) f || faultHits fault 1 (ifC σ 1) 1 (ifC σ 1) then rejectDirty db'
     else if createOverVetoed env σ db id || ixVetoedFor env σ .afterUpdate id then rejectDirty db
     else finish env fault db' (writeFlows σ .created db db' id)
 
-/-- an entity with child data is updated through the child store, whichever store was asked -/
+/-- an entity with child data is updated through a child store, whichever store was asked: the parent
+    store hands the update to the first of its child stores (C, then D) that holds the entity -/
 def updateStore (σ : StoreId) (db : Db) (id : String) : StoreId :=
   match σ with
-  | .C => .C
-  | .P => if hasChild db id then .C else .P
+  | .P => if hasChild db id then .C else if hasChild2 db id then .D else .P
+  | σ => σ
 
 def specUpdate (env : Env) (fault : Fault) (σ : StoreId) (id : String) (f : PFields) (rank : String) (db : Db) : Verdict :=
   let σe : StoreId := updateStore σ db id
@@ -134,24 +175,21 @@ def specUpdate (env : Env) (fault : Fault) (σ : StoreId) (id : String) (f : PFi
       let old := (db.get id).map (·.f)
       -- the parent store leaves the rank alone
       let db' := db.put id (writtenEnt σ db id f rank)
-      let counts : Nat × Nat × Nat × Nat := match σe with | .P => (2, 0, 1, 0) | .C => (2, 2, 1, 1)
-      if writeRejected false db db' id old f || faultHits fault counts.1 counts.2.1 counts.2.2.1 counts.2.2.2 then rejectDirty db'
+      if writeRejected false db db' id old f || faultHits fault 2 (ifC σe 2) 1 (ifC σe 1) then rejectDirty db'
       else if ixVetoedFor env σe .beforeUpdate id || ixVetoedFor env σe .afterUpdate id then rejectDirty db
       else finish env fault db' (writeFlows σe .updated db db' id)
 
-/-- deleting through either store deletes the whole entity -/
+/-- deleting through any store deletes the whole entity -/
 def specDelete (env : Env) (fault : Fault) (id : String) (db : Db) : Verdict :=
   match db.get id with
   | none => rejectClean db
-  | some e =>
-    let σe : StoreId := if e.child.isSome then .C else .P
-    let counts : Nat × Nat := match σe with | .P => (2, 0) | .C => (3, 1)
-    if faultHits fault counts.1 counts.2 0 0 then rejectDirty db
+  | some _ =>
+    if faultHits fault (delCounts db id).1 (delCounts db id).2 0 0 then rejectDirty db
     -- restrict: another entity still refers to this one
     else if db.any (fun p => !(p.1 == id) && refBytes p.2.f.ref == id) then rejectDirty db
-    -- a custom constraint of the parent store or (entity with child data) of the child store objects
-    else if ixVetoedFor env σe .beforeDelete id then rejectDirty db
-    else finish env fault (db.del id) (writeFlows σe .deleted db db id)
+    -- a custom constraint of the parent store or of a child store that holds the entity objects
+    else if ixVetoedDel env db id then rejectDirty db
+    else finish env fault (db.del id) (deleteFlows db id)
 
 /-- the fault as seen by an operation that starts after `lp` / `lc` FillEntity calls were made (a
     call number that is already past becomes 0, which never strikes) -/
@@ -167,8 +205,7 @@ def specDeleteMany (env : Env) : Fault → List String → Db → List Flow → 
   | fault, id :: rest, db, acc =>
     let v := specDelete env fault id db
     if v.accepted then
-      let used : Nat × Nat := if hasChild db id then (3, 1) else (2, 0)
-      specDeleteMany env (shiftFault fault used.1 used.2) rest v.db (acc ++ v.flows)
+      specDeleteMany env (shiftFault fault (delCounts db id).1 (delCounts db id).2) rest v.db (acc ++ v.flows)
     else { v with flows := acc ++ v.flows }
 
 def specOp (env : Env) (fault : Fault) (o : Op) (db : Db) : Verdict :=
@@ -238,6 +275,7 @@ def specTxWith (env : Env) (txComplete : Bool) (db : Db) (ctx : Ctx) (body : Lis
     { ok := true, db := b.db,
       fired := [Fired.commitActions b.ctx.commitActions]
         ++ announceTo .P b.flows (indexed env.regsP) ++ announceTo .C b.flows (indexed env.regsC)
+        ++ announceTo .D b.flows (indexed env.regsD)
         ++ (if txComplete then (List.range env.txListeners).map Fired.txComplete else []),
       ctx := b.ctx, specified := b.specified }
   -- once the body went on after a rejection the spec says nothing about (see `Verdict.exact`), whether
